@@ -238,10 +238,13 @@ func checkC15(c *Ctx) {
 		}
 		if p == zp {
 			switch f.Name() {
-			case "check", "Check", "log", "logln", "StackSkip", "Stack":
+			case "Check", "StackSkip", "Stack":
 				return true
 			}
-			return false
+			// unexported helpers between a front end and the capture (check, log, logln, and whatever they are split
+			// into); an exported method reached from inside zap (sweetenFields reporting through s.base.Error) starts
+			// a chain of its own
+			return !ast.IsExported(f.Name()) && f.Parent() == nil
 		}
 		if p == "log" {
 			return f.Name() == "output"
@@ -347,6 +350,33 @@ func checkC15(c *Ctx) {
 		c.Check(ok, "R15.1", acs.String(), "additive", acs.Pos(), "AddCallerSkip(n) adds exactly n to callerSkip")
 	}
 
+	// the preset zapslog.NewHandler stores in its handler's callerSkip (none on the reference tree: Handle adds its
+	// constant itself), by exploring NewHandler without options
+	slogK := int64(0)
+	if nh := c.Func(SlogPath, "NewHandler"); nh != nil {
+		var seen []int64
+		ConcPaths(nh, ConcCfg{
+			SliceLen: func(p *ssa.Parameter) (int64, bool) { return 0, true }, Unroll: true,
+			Event: func(in ssa.Instruction, st *ConcState) string {
+				if r, ok := in.(*ssa.Return); ok && len(r.Results) == 1 && len(st.cfg.stackDepth()) == 0 {
+					if k, isInt, _ := st.FieldOf(r.Results[0], "callerSkip"); isInt {
+						seen = append(seen, k)
+					} else {
+						seen = append(seen, -999)
+					}
+				}
+				return ""
+			},
+		})
+		if len(seen) > 0 {
+			slogK = seen[0]
+			for _, k := range seen {
+				if k != slogK {
+					slogK = -999
+				}
+			}
+		}
+	}
 	type entry struct {
 		fn     *ssa.Function
 		preset int64
@@ -380,7 +410,7 @@ func checkC15(c *Ctx) {
 	}
 	for _, n := range []string{"Debug", "Info", "Warn", "Error", "Log", "LogAttrs", "DebugContext", "InfoContext", "WarnContext", "ErrorContext"} {
 		if f := c.Method("log/slog", "Logger", n); f != nil {
-			entries = append(entries, entry{f, 0, "slog"})
+			entries = append(entries, entry{f, slogK, "slog"})
 		}
 	}
 	for _, e := range entries {
@@ -843,16 +873,14 @@ func c15Attach(c *Ctx) {
 				thrOK = hset(strings.TrimPrefix(atoms[0], "record.Level >= "), "addStackAt")
 			}
 			c.Check(thrOK, "R15.4", h.String(), "stack-iff-threshold", ss.Pos(), "a stack is attached exactly when record.Level >= addStackAt, compared on the slog level itself (guards %v)", atoms)
+			// the skip handed to Take is the handler's callerSkip plus a constant (how large the constant has to be is
+			// decided by R15.1 on the whole chain, together with what NewHandler presets)
 			skipOK := false
-			if d := Desc(ss.Val); strings.HasPrefix(d, "Take((") && strings.HasSuffix(d, "))") {
-				in := d[len("Take((") : len(d)-2]
-				if strings.HasPrefix(in, "3 + ") {
-					skipOK = hset(in[4:], "callerSkip")
-				} else if strings.HasSuffix(in, " + 3") {
-					skipOK = hset(in[:len(in)-4], "callerSkip")
-				}
+			if tk, isCall := Strip(ss.Val).(*ssa.Call); isCall && len(tk.Call.Args) == 1 {
+				l := evalLin(tk.Call.Args[0], nil, 0)
+				skipOK = l.syms["callerSkip"] == 1 && len(l.syms) == 1
 			}
-			c.Check(skipOK, "R15.4", h.String(), "stack-skip-expr", ss.Pos(), "the trace is taken with skip 3 + callerSkip (%s)", Desc(ss.Val))
+			c.Check(skipOK, "R15.4", h.String(), "stack-skip-expr", ss.Pos(), "the trace is taken with skip callerSkip + a constant (%s)", Desc(ss.Val))
 			ga := AtomStrings(Guards(cs))
 			// the frame is resolved from record.PC (directly or in a helper that is handed record.PC)
 			fromPC, frames := false, false
